@@ -21,31 +21,43 @@ theorem rd16_be16 {n : Nat} (h : n < 65536) :
 
 /-! ### framing -/
 
-theorem removeRequest_addRequest (p : Bytes) (h : p.length ≤ 255) :
-    removeRequestFormat (UInt8.ofNat p.length :: p) = .ok p := by
+/-- the one-byte prefix is self-delimiting: whatever follows the framed payload is ignored -/
+theorem removeRequest_addRequest_append (p x : Bytes) (h : p.length ≤ 255) :
+    removeRequestFormat (UInt8.ofNat p.length :: (p ++ x)) = .ok p := by
   have hb : (UInt8.ofNat p.length).toNat = p.length := u8_toNat_ofNat (by omega)
-  simp only [removeRequestFormat, index, List.length_cons, List.getElem?_cons_zero, Outcome.bind, hb]
-  have h1 : ¬ (p.length + 1 < 1) := by omega
-  have h2 : ¬ (1 + p.length > p.length + 1) := by omega
+  simp only [removeRequestFormat, index, List.length_cons, List.length_append, List.getElem?_cons_zero, Outcome.bind, hb]
+  have h1 : ¬ (p.length + x.length + 1 < 1) := by omega
+  have h2 : ¬ (1 + p.length > p.length + x.length + 1) := by omega
   simp only [h1, h2, if_false]
   rw [slice_eq (by omega) (by simp; omega)]
   simp
 
-theorem removeResponse_addResponse (p : Bytes) (h : p.length ≤ 65535) :
-    removeResponseFormat (be16 p.length ++ p) = .ok p := by
-  have hl : (be16 p.length ++ p).length = p.length + 2 := by simp [be16]
+theorem removeRequest_addRequest (p : Bytes) (h : p.length ≤ 255) :
+    removeRequestFormat (UInt8.ofNat p.length :: p) = .ok p := by
+  have := removeRequest_addRequest_append p [] h
+  simpa using this
+
+/-- the two-byte prefix likewise (the requester decodes its whole 4096-byte receive buffer) -/
+theorem removeResponse_addResponse_append (p x : Bytes) (h : p.length ≤ 65535) :
+    removeResponseFormat (be16 p.length ++ p ++ x) = .ok p := by
+  have hl : (be16 p.length ++ p ++ x).length = p.length + x.length + 2 := by simp [be16]
   unfold removeResponseFormat
   rw [hl]
-  have h1 : ¬ (p.length + 2 < 2) := by omega
+  have h1 : ¬ (p.length + x.length + 2 < 2) := by omega
   simp only [h1, if_false]
   rw [slice_eq (by omega) (by omega)]
   simp only [Outcome.bind, be16, List.drop_zero, Nat.sub_zero, List.cons_append, List.nil_append, List.take_succ_cons,
     List.take_zero]
   rw [rd16_be16 (by omega)]
-  have h2 : ¬ (2 + p.length > p.length + 2) := by omega
+  have h2 : ¬ (2 + p.length > p.length + x.length + 2) := by omega
   simp only [h2, if_false]
   rw [slice_eq (by omega) (by simp; omega)]
   simp
+
+theorem removeResponse_addResponse (p : Bytes) (h : p.length ≤ 65535) :
+    removeResponseFormat (be16 p.length ++ p) = .ok p := by
+  have := removeResponse_addResponse_append p [] h
+  simpa using this
 
 /-- the decoders never slice out of range -/
 theorem removeRequest_safe (p : Bytes) : (removeRequestFormat p).Safe := by
